@@ -5,6 +5,10 @@ HERE = os.path.dirname(os.path.dirname(os.path.abspath(__file__)))
 ALL = ["C%02d" % i for i in range(1, 21)]
 # id -> (technique, level text, level note, design ref)
 CHECKS = {
+ "C10": ("bounded-exhaustive enumeration of real dry-run sessions: every-type/every-situation tree pair x all option subsets x 5 arrangements, and all 15 625 pairs of small trees; full before/after snapshot comparison plus wire tap",
+         "every subset of {-l,-p,-t,-g,-o,-D,-c,-I} (+--delete/--devices/--specials) with -rn in all arrangements on a tree pair containing each of 7 entry types in each of {missing, different, same, wrong type, metadata-only difference} plus extraneous entries, and all pairs of trees over 3 names x 5 kinds; the destination snapshot (types, bytes, mode, ns mtime, targets, rdev, owner) must be identical, the session must succeed, and the decoded stream must carry no literal bytes",
+         "runs as root on tmpfs; atime/ctime not compared; the local arrangement's wire is not tapped (in-process pipes)",
+         "DESIGN.md §5 C10"),
  "C15": ("bounded-exhaustive enumeration of protocol-27 file-list encodings (independent reference codec) against the real decoder, and reference decoding of the real encoder's stream in every arrangement/option set; index numbering cross-checked in both directions",
          "decoder: every list of <=2 entries from a 10/12-entry feature pool x every subset of compression flags a conforming sender may use x all 32 option sets; encoder: every-type tree x 32 option sets x {daemon, command} x {pull, push}, sparse files up to 2^40 bytes for the 64-bit length encoding; numbering on names where plausible wrong orders differ",
          "the reference codec (refproto) is the authority: it transcribes rsync 2.6.x flist.c; no foreign rsync is required (tridge rsync, if present, is only used by an optional self-test of refproto)",
